@@ -246,19 +246,17 @@ def cmd_run(a):
         cases = unknown[cls]
         # smallest trace first
         i, trace, v = min(cases, key=lambda c: (len(core.cjson(c[1])), c[0]))
+        # the minimiser must not slide from an unlisted violation into a listed
+        # finding of the same class (and hide the former behind the latter)
+        def not_listed(tr, vv):
+            return core.match_finding(findings, prop, world.classify(prop, tr, vv)) is None
         mtrace, mv, tried = core.minimise(world, prop, trace, cls,
                                           budget=cfg.get("min_budget", 1500),
-                                          time_budget=cfg.get("min_time_s", 60))
+                                          time_budget=cfg.get("min_time_s", 60), accept=not_listed)
         if mv is None:
             harness_errors.append("violation of run %d (%s) did not reproduce in-process" % (i, cls))
             continue
-        # a minimised witness may turn out to be a known finding
         sig = world.classify(prop, mtrace, mv)
-        f = core.match_finding(findings, prop, sig)
-        if f is not None:
-            e = known_hits.setdefault(f["id"], [0, i, f])
-            e[0] += len(cases)
-            continue
         rep = {"property": prop, "violation_class": list(cls), "violation": mv,
                "signature": sig, "seed": master, "run": i,
                "run_seed": core.run_seed(master, prop, i),
